@@ -244,3 +244,34 @@ def probe_cleanup(seed, per=2):
         row[out] = row.get(out, 0) + 1
         row['cases'].append((text, helper, out))
     return table
+
+
+def twin_pairs(seed, per=1):
+    """[(instance, textA, textB)]: A is a copy of B in which ONLY the definition that a reference at the site names got
+    different content - the referrer itself is textually identical in both files (the case in which a merge must not
+    simply share A's referrer)."""
+    S = sites()
+    docs_ = gen_docs(seed + 1, per, True, p_special=0.0, p_this=0.0)
+    rng = random.Random(seed)
+    out, per_n = [], {}
+    for node, text, refs, focus in docs_:
+        todo = {}
+        for ref in refs:
+            own = ref.owner()
+            if plain(ref) and not (own and own[1] == ref.target) and ref.entry['ns'] in R.RENAMING_NS:
+                todo.setdefault(inst_of(ref), []).append(ref)
+        for k in sorted(todo):
+            if per_n.get(k, 0) >= per:
+                continue
+            ref = rng.choice(todo[k])
+            a = copy.deepcopy(node)
+            el = find_def(a, ref.entry['ns'], ref.target)
+            if el is None:
+                continue
+            try:
+                R.mutate_content(a, rng, el)
+            except ValueError:
+                continue
+            out.append((k, render(a, rng), text))
+            per_n[k] = per_n.get(k, 0) + 1
+    return out
